@@ -109,7 +109,7 @@ package freelist
 //@   loop 1 invariant [readers] readerssame(t)
 //@   loop 1 invariant [cur] begin <= tid && tid <= end && has(t.pending, tid) && t.pending[tid] == txp
 
-//@ func (txIDx).Less
+//@ func txIDx.Less
 //@   props C09 C02
 //@   requires 0 <= i && i < len(t) && 0 <= j && j < len(t)
 //@   ensures result == (t[i] < t[j])
